@@ -27,15 +27,24 @@ var mockFS = fs.MockFS(map[string]string{}, fs.MockUnix, "/")
 
 func runC19(seed uint64, n int, tier string, outDir string) []*Stats {
 	r := NewRng(seed)
-	cf := NewCoqFile("From V Require Import Common.Base C18.Pieces C18.Harness C19.Metafile C19.Harness.")
+	cf := NewCoqFile("From V Require Import Common.Base C18.Pieces C18.Harness C19.Metafile C19.Json C19.Layout C19.Doc C19.Harness.")
 	st := NewStats("c19", seed)
 
+	docLimit = 12
+	if tier != "quick" {
+		docLimit = 120
+	}
 	corpusKnown(st)
 	corpusInject(st)
+	corpusNames(st)
 	targetedMetafile(st)
+	oddNameBuilds(st)
 	metaCases(r, n/2, cf, st)
 	outsCases(r, n/2, cf, st)
+	quoteCases(r, n, cf, st)
+	genCases(r, n/2, cf, st)
 	glueMetafile(r, n, st)
+	flushDocs(cf)
 
 	st.Finish("distinct case key AND (a key is substituted in an attributed slice / a path is listed twice / a build with >1 output or >1 input)")
 	if err := os.WriteFile(outDir+"/c19_cases.v", []byte(cf.String()), 0o644); err != nil {
